@@ -210,12 +210,26 @@ func genSpec(r *payload.SplitMix, idx int) fileSpec {
 	return f
 }
 
-// collisionSpec is the deterministic descriptor of the recorded finding.
+// collisionSpec is the deterministic descriptor of a finding that has been repaired (the generator rejects it now).
 func collisionSpec() fileSpec {
 	return fileSpec{Pkg: "a", JSON: true, Msgs: []string{"Req"}, Services: []svcSpec{
 		{Name: "A_B", Methods: []methodSpec{{Name: "Get", In: "Req", Out: "Req"}}},
 		{Name: "A", Methods: []methodSpec{{Name: "B", CS: true, SS: true, In: "Req", Out: "Req"}}},
 	}}
+}
+
+// clashSpecs are descriptors whose services or methods lead to the same Go identifier twice although
+// their proto names differ. The generator may reject them; if it accepts one, its output must compile.
+func clashSpecs() map[string]fileSpec {
+	req := []string{"Req"}
+	return map[string]fileSpec{
+		"method-DRPCConn": {Pkg: "a", Msgs: req, Services: []svcSpec{{Name: "Svc", Methods: []methodSpec{{Name: "DRPCConn", In: "Req", Out: "Req"}, {Name: "Get", In: "Req", Out: "Req"}}}}},
+		"methods-get_item-GetItem": {Pkg: "a", Msgs: req, Services: []svcSpec{{Name: "Svc", Methods: []methodSpec{{Name: "get_item", In: "Req", Out: "Req"}, {Name: "GetItem", SS: true, In: "Req", Out: "Req"}}}}},
+		"services-my_service-MyService": {Pkg: "a", Msgs: req, Services: []svcSpec{{Name: "my_service", Methods: []methodSpec{{Name: "Get", In: "Req", Out: "Req"}}}, {Name: "MyService", Methods: []methodSpec{{Name: "Put", In: "Req", Out: "Req"}}}}},
+		"services-Foo-FooUnimplemented": {Pkg: "a", JSON: true, Msgs: req, Services: []svcSpec{{Name: "Foo", Methods: []methodSpec{{Name: "Get", In: "Req", Out: "Req"}}}, {Name: "FooUnimplemented", Methods: []methodSpec{{Name: "Put", CS: true, In: "Req", Out: "Req"}}}}},
+		"service-Foo-vs-service-FooDescription": {Pkg: "a", Msgs: req, Services: []svcSpec{{Name: "Foo", Methods: []methodSpec{{Name: "Get", In: "Req", Out: "Req"}}}, {Name: "FooDescription", Methods: []methodSpec{{Name: "Put", In: "Req", Out: "Req"}}}}},
+		"service-named-like-a-message": {Pkg: "a", Msgs: []string{"Req", "DRPCFooClient"}, Services: []svcSpec{{Name: "Foo", Methods: []methodSpec{{Name: "Get", In: "Req", Out: "DRPCFooClient"}}}}},
+	}
 }
 
 // shiftSpecs are descriptors in which "<service>_<method>" reads the same for two different
@@ -237,7 +251,8 @@ func shiftSpecs() []fileSpec {
 // identifier the generated code uses itself (the standard context package, the drpc runtime, ...).
 func foreignPkgSpecs() []fileSpec {
 	var out []fileSpec
-	for _, name := range []string{"context", "drpc", "errors", "drpcerr", "msgs"} {
+	// c, x, in, ctx, srv, in1, in2, out, m, err, stream, s, mux, impl, cc: names of receivers, parameters and locals of the generated functions
+	for _, name := range []string{"context", "drpc", "errors", "drpcerr", "msgs", "c", "x", "in", "ctx", "srv", "in1", "in2", "out", "m", "err", "stream", "s", "mux", "impl", "cc", "io"} {
 		for _, first := range []bool{true, false} {
 			svc := svcSpec{Name: "Svc"}
 			ms := []methodSpec{
@@ -549,6 +564,12 @@ func checkSpec(id string, f fileSpec, idx int, seed uint64) runner.Result {
 		res.Sample = map[string]interface{}{"descriptor": desc, "generator_error": resp.GetError()}
 		return res
 	}
+	if keep := os.Getenv("C17_KEEP"); keep != "" { // development aid: keep the generator's output for comparison
+		for _, r := range resp.File {
+			os.MkdirAll(keep, 0o755)
+			os.WriteFile(filepath.Join(keep, strings.ReplaceAll(id, "/", "_")+".go"), []byte(strings.ReplaceAll(r.GetContent(), fmt.Sprintf("c17scratch/p%d", idx), "c17scratch/pN")), 0o644)
+		}
+	}
 	for _, r := range append(goResp.File, resp.File...) {
 		target := filepath.Join(dir, filepath.Base(r.GetName()))
 		if f.ExtPkg != "" && strings.HasPrefix(filepath.Base(r.GetName()), "ext.") {
@@ -569,23 +590,7 @@ func checkSpec(id string, f fileSpec, idx int, seed uint64) runner.Result {
 		}
 		return runner.Violation(id, key, desc+"\n"+what+"\n"+out)
 	}
-	collisionKey := func(out string) string {
-		// the recorded finding: the client interface of service X_Y and the stream client interface of service X, method Y share a name
-		for _, s1 := range f.Services {
-			for _, s2 := range f.Services {
-				for _, m := range s2.Methods {
-					if (m.CS || m.SS) && s1.Name == s2.Name+"_"+m.Name && strings.Contains(out, "DRPC"+s1.Name+"Client redeclared") {
-						return "c17:collision:client-interface-of-service-X_Y-vs-stream-client-interface-of-service-X-method-Y"
-					}
-				}
-			}
-		}
-		return ""
-	}
 	if out, err := run(mod, "go", "build", pkg); err != nil {
-		if k := collisionKey(out); k != "" {
-			return fail(k, "the generator accepted the descriptor but the generated package does not compile", out)
-		}
 		key := "c17:compile"
 		if strings.Contains(out, "redeclared") {
 			key = "c17:compile:redeclared"
@@ -660,6 +665,11 @@ func gen(tier string, seed uint64) []runner.Scenario {
 		id := fmt.Sprintf("fixed/underscore-shift-%d", k)
 		out = append(out, runner.Scenario{ID: id, Run: func() runner.Result { return checkSpec(id, f, 1000+k, seed) }})
 	}
+	for name, f := range clashSpecs() {
+		name, f, idx := name, f, 3000+len(out)
+		id := "fixed/clash-" + name
+		out = append(out, runner.Scenario{ID: id, Run: func() runner.Result { return checkSpec(id, f, idx, seed) }})
+	}
 	for k, f := range foreignPkgSpecs() {
 		k, f := k, f
 		id := fmt.Sprintf("fixed/foreign-package-%s-%d", f.ExtPkg, k)
@@ -679,7 +689,7 @@ func main() {
 	runner.Main(runner.Check{
 		Property: "C17",
 		Level:    "exploration",
-		Rule:     "one case = one generated file descriptor: 1-3 services named from {Foo, foo_bar, Foo_Bar, fooBar, FOO2, Get_Item, A, A_B, B, Svc, x, Store_}, 0-5 methods named from {Get, get_item, Get_Item, listItems, PUT2, B, A_B, Sync, x, Do_, Stream, Close, Send, Recv} in every streaming combination, packages {a, a.b.c, my_pkg.v1, Zed}, request/response types among local messages, a nested message and google.protobuf.StringValue, protolib in {default, custom}, json on/off; plus fixed descriptors (services A_B and A with streaming method B; pairs of services whose <service>_<method> strings coincide, e.g. Store_Item.Get and Store.Item_Get; messages imported from another Go package named context, drpc, errors, drpcerr or msgs - compile and vet only). The plugin built from /repo generates the code; go build, go vet and a driver derived from the generated interfaces by go/parser run every method of the generated client against the generated server through drpcmux over a real connection. Non-trivial: descriptors with at least one method that the generator accepted. Distinct: by descriptor text.",
+		Rule:     "one case = one generated file descriptor: 1-3 services named from {Foo, foo_bar, Foo_Bar, fooBar, FOO2, Get_Item, A, A_B, B, Svc, x, Store_}, 0-5 methods named from {Get, get_item, Get_Item, listItems, PUT2, B, A_B, Sync, x, Do_, Stream, Close, Send, Recv} in every streaming combination, packages {a, a.b.c, my_pkg.v1, Zed}, request/response types among local messages, a nested message and google.protobuf.StringValue, protolib in {default, custom}, json on/off; plus fixed descriptors (services A_B and A with streaming method B and other definitions whose distinct proto names lead to one Go identifier - the generator may reject them, what it accepts must compile; pairs of services whose <service>_<method> strings coincide, e.g. Store_Item.Get and Store.Item_Get; messages imported from another Go package named context, drpc, errors, io, drpcerr, msgs or like a receiver/parameter/variable of the generated functions (c, x, in, ctx, srv, in1, in2, out, m, err, stream, s, mux, impl, cc) - compile and vet only). The plugin built from /repo generates the code; go build, go vet and a driver derived from the generated interfaces by go/parser run every method of the generated client against the generated server through drpcmux over a real connection. Non-trivial: descriptors with at least one method that the generator accepted. Distinct: by descriptor text.",
 		Assumptions: []string{
 			"protoc is not installed: both plugins are driven with hand-built CodeGeneratorRequests; protoc-gen-go comes from the module cache (v1.27.1)",
 			"two methods of one service, or two services, whose names differ only in case/underscores, and the gogo protolib (no gogo message generator available offline), are excluded",
